@@ -43,8 +43,11 @@ try:
         ok = False
     rcb, ob = sh("go build ./...", cwd=wt)
     ran.append("go build: rc=%d" % rcb)
-    rcs, os_ = sh("go test -vet=off -count=1 ./...", cwd=wt)
-    ran.append("existing suite with the change: rc=%d" % rcs)
+    for attempt in range(3):  # TestRequestStatVFS compares free disk blocks twice: flaky while the disk is busy
+        rcs, os_ = sh("go test -vet=off -count=1 ./...", cwd=wt)
+        ran.append("existing suite with the change (attempt %d): rc=%d" % (attempt + 1, rcs))
+        if rcs == 0 or "TestRequestStatVFS" not in os_:
+            break
     shutil.copy(demo, os.path.join(wt, "zz_seed_demo_test.go"))
     rc1, o1 = sh("go test -vet=off -count=1 -run '^TestSeedDemo$' .", cwd=wt)
     ran.append("demo with the change: rc=%d" % rc1)
